@@ -130,6 +130,9 @@ LOOKUPS = ["elementAt", "roadAt", "laneAt", "laneSectionAt", "laneGroupAt", "int
 # the rule table of Model/Roads.lean, in order: short labels used in keys / messages (length re-checked against
 # the driver's `rules` answer on every run)
 CHILD_TOL_HARD = 0.5  # the code's own construction-time containment tolerance (roads.py: containsRegion(..., 0.5))
+# the recorded finding `direction:centerline-backstep` is about centimetre-long backward steps of a centreline at the
+# joints of the reference line (observed 0.1 - 8 cm); a longer backward run is a different defect and gets another key
+BACKSTEP_MAX = 0.10
 
 
 
@@ -940,13 +943,16 @@ def process_map(job):
         # ---- adjacency / lane order of every road section, to be compared with the Lean construction by the parent
         res["adj"] = collect_adjacency(n)
         # ---- centreline back-steps: deterministic search for a point where the reported direction is reversed
-        nb = 0
+        nb = nlong = 0
         for lane in n.lanes:
             p = cl(lane)
             for a, b in backsteps(p):
                 nb += 1
-                if nb <= 3:
-                    seg = a if np.hypot(*(p[a + 1] - p[a])) < np.hypot(*(p[b + 1] - p[b])) else b
+                seg = a if np.hypot(*(p[a + 1] - p[a])) < np.hypot(*(p[b + 1] - p[b])) else b
+                long_ = np.hypot(*(p[seg + 1] - p[seg])) > BACKSTEP_MAX
+                nlong += bool(long_)
+                H("centreline_backstep_length", "<=1cm" if np.hypot(*(p[seg + 1] - p[seg])) <= 0.01 else "<=10cm" if not long_ else ">10cm")
+                if nb <= 3 or (long_ and nlong <= 5):
                     mx, my = (p[seg] + p[seg + 1]) / 2
                     ch = coarse_heading(p, mx, my, span=2.0)
                     try:
@@ -956,7 +962,7 @@ def process_map(job):
                         rep = None
                     if ch is not None and rep is not None and ang_diff(rep, ch) > math.pi / 2 \
                             and lane.polygons.intersects(shapely.Point(mx, my)):
-                        issue("direction:centerline-backstep",
+                        issue("direction:centerline-backstep" if np.hypot(*(p[seg + 1] - p[seg])) <= BACKSTEP_MAX else "direction:centerline-reversed",
                               f"lane {lane.uid}: centreline runs backwards for {np.hypot(*(p[seg+1]-p[seg])):.3f} m between vertices {seg} and {seg+1}; "
                               f"roadDirection at ({mx:.4f}, {my:.4f}) is {math.degrees(rep):.1f} deg, the lane runs at {math.degrees(ch):.1f} deg",
                               {"point": [float(mx), float(my)], "lane": lane.uid})
@@ -1073,7 +1079,7 @@ def direction_check(n, geo, x, y, exact, near, und, inter_polys, laneset, conn_l
         if any(float(shapely.distance(sh.polygons, pt)) <= tol * 1.01 + 1e-9 for sh in n.shoulders):
             H("direction_point", "ambiguous:shoulder-overlap")
             return
-        tans, dm, _ = nearest_tangents(cl(lane), x, y)
+        tans, dm, segs = nearest_tangents(cl(lane), x, y)
         ok = len(dirs) == 1 and any(ang_diff(dirs[0], t) <= EPS for t in tans) and any(ang_diff(rd, t) <= EPS for t in tans)
         H("direction_point", "lane:tangent" if ok else "lane:NOT-TANGENT")
         if not ok:
@@ -1087,7 +1093,9 @@ def direction_check(n, geo, x, y, exact, near, und, inter_polys, laneset, conn_l
                 rev = ang_diff(rd, ch) > math.pi / 2
                 H("direction_vs_travel", "reversed" if rev else "along")
                 if rev:
-                    issue("direction:centerline-backstep",
+                    import numpy as np
+                    seglen = min(float(np.hypot(*(cl(lane)[i + 1] - cl(lane)[i]))) for i in segs)
+                    issue("direction:centerline-backstep" if seglen <= BACKSTEP_MAX else "direction:centerline-reversed",
                           f"roadDirection at ({x!r}, {y!r}) in lane {lane.uid} is {math.degrees(rd):.1f} deg but the lane runs at {math.degrees(ch):.1f} deg "
                           "(the nearest centreline segment runs backwards)", {"point": [x, y], "lane": lane.uid})
     else:
